@@ -17,9 +17,9 @@ setup)
   ;;
 try)
   PID=$2; PATCH=$3
-  cd $MR && git checkout -q -- . && git clean -fdq && (git apply $PATCH 2>/dev/null || git apply --3way $PATCH) || { echo "RESULT $PID $PATCH patch-does-not-apply"; exit 2; }
+  cd $MR && git reset -q --hard && git clean -fdq && (git apply $PATCH 2>/dev/null || git apply --3way $PATCH) || { echo "RESULT $PID $PATCH patch-does-not-apply"; exit 2; }
   cd $MV && PASSAGE_REPO=$MR ./check $PID > /tmp/mlab${L}_$PID.out 2>&1; RC=$?
-  cd $MR && git checkout -q -- . && git clean -fdq
+  cd $MR && git reset -q --hard && git clean -fdq
   echo "RESULT $PID $(basename $(dirname $PATCH)) exit=$RC violations=$(grep -c VIOLATION /tmp/mlab${L}_$PID.out) :: $(grep VIOLATION /tmp/mlab${L}_$PID.out | head -1) :: $(grep 'broken:' /tmp/mlab${L}_$PID.out | head -2 | tr '\n' ' ' | cut -c1-200)"
   ;;
 esac
